@@ -18,6 +18,7 @@ import (
 	"rscheck/cfgq"
 	"rscheck/core"
 	"rscheck/driver"
+	"rscheck/pat"
 )
 
 var Def = driver.PropDef{
@@ -701,52 +702,24 @@ func (a *analysis) sanitizer() {
 		c.Failf("R3.sanitizer", "GetSafeOptions/returns-copy", ret.Pos(), "GetSafeOptions returns the live configuration object: nothing is masked")
 		return
 	}
-	g := cfgq.Of(c.Program, fn)
 	masked := map[string]bool{}
 	maskedWitness := map[string][]string{}
+	escapes := false
 	if st0, ok := local.Type().Underlying().(*types.Struct); ok {
+		var names []string
 		for i := 0; i < st0.NumFields(); i++ {
-			f := st0.Field(i)
-			if _, isSrc := a.sources[f]; !isSrc {
-				continue
+			if _, isSrc := a.sources[st0.Field(i)]; isSrc {
+				names = append(names, st0.Field(i).Name())
 			}
-			name := f.Name()
-			isField := func(e ast.Expr) bool {
-				sel, ok := ast.Unparen(e).(*ast.SelectorExpr)
-				if !ok || sel.Sel.Name != name {
-					return false
-				}
-				base, ok := sel.X.(*ast.Ident)
-				return ok && info.Uses[base] == local
-			}
-			assign := func(n ast.Node) bool {
-				as, ok := n.(*ast.AssignStmt)
-				if !ok || len(as.Lhs) != 1 || len(as.Rhs) != 1 || !isField(as.Lhs[0]) {
-					return false
-				}
-				_, isConst := core.StringConst(info, as.Rhs[0])
-				return isConst
-			}
-			empty := func(b *cfg.Block, s int) bool {
-				return g.Establishes(b, s, func(ft cfgq.Fact) bool {
-					be, ok := ast.Unparen(ft.Expr).(*ast.BinaryExpr)
-					if !ok {
-						return false
-					}
-					for _, p := range [][2]ast.Expr{{be.X, be.Y}, {be.Y, be.X}} {
-						if !isField(p[0]) {
-							continue
-						}
-						if sv, ok := core.StringConst(info, p[1]); ok && sv == "" {
-							return be.Op == token.EQL && ft.Val || be.Op == token.NEQ && !ft.Val
-						}
-					}
-					return false
-				})
-			}
-			w := g.Path(cfgq.Query{From: g.Entry(), Avoid: assign, AvoidEdge: empty, TargetExit: cfgq.NormalExit})
-			masked[name] = w == nil
-			maskedWitness[name] = w
+		}
+		isLocal := func(e ast.Expr) bool {
+			id, ok := ast.Unparen(e).(*ast.Ident)
+			return ok && info.Uses[id] == local
+		}
+		for _, name := range names {
+			ok, w, esc := a.masks(fn, isLocal, name, 0)
+			masked[name], maskedWitness[name] = ok, w
+			escapes = escapes || esc
 		}
 	}
 	// every source field of the returned type
@@ -762,6 +735,10 @@ func (a *analysis) sanitizer() {
 			continue
 		}
 		n++
+		if !masked[f.Name()] && escapes {
+			c.Undecidedf("R3.sanitizer", "GetSafeOptions/"+f.Name(), fn.Decl.Pos(), "the copy is handed by address to code that is not recognised as overwriting %s with a constant", f.Name())
+			continue
+		}
 		c.Check("R3.sanitizer", "GetSafeOptions/"+f.Name(), fn.Decl.Pos(), masked[f.Name()],
 			fmt.Sprintf("GetSafeOptions must overwrite %s with a constant on every path on which it is non-empty, on the copy it returns; otherwise /conf and the start-up echo show the password", f.Name()), maskedWitness[f.Name()]...)
 		// nested structs with passwords are not expected
@@ -907,4 +884,126 @@ func (a *analysis) mainAST() {
 		}
 	}
 	c.Note("package main (AST only, %d type errors): %d sink arguments examined", c.MainTypeErrors, n)
+}
+
+// masks reports whether every normal path of fn overwrites field `name` of the
+// object denoted by isBase with a string constant (or leaves through an edge on
+// which the field is known to be empty). The overwrite may be a direct
+// assignment, happen in a same-package helper that receives the object (by
+// address or as a pointer), or be the idiom `for _, p := range []*string{&x.A,
+// &x.B} { *p = "const" }`. esc tells that the object is handed to code that
+// could not be analysed.
+func (a *analysis) masks(fn *core.Fn, isBase func(ast.Expr) bool, name string, depth int) (ok bool, witness []string, esc bool) {
+	c := a.c
+	info := fn.Pkg.TypesInfo
+	g := cfgq.Of(c.Program, fn)
+	isField := func(e ast.Expr) bool {
+		sel, ok := ast.Unparen(e).(*ast.SelectorExpr)
+		return ok && sel.Sel.Name == name && isBase(sel.X)
+	}
+	// the pointer-slice idiom, as unconditional top-level statements
+	for _, st := range fn.Decl.Body.List {
+		rs, isRange := st.(*ast.RangeStmt)
+		if !isRange || rs.Value == nil || len(rs.Body.List) == 0 {
+			continue
+		}
+		lit, isLit := ast.Unparen(rs.X).(*ast.CompositeLit)
+		if !isLit {
+			continue
+		}
+		listed := false
+		for _, el := range lit.Elts {
+			if u, isAddr := ast.Unparen(el).(*ast.UnaryExpr); isAddr && u.Op == token.AND && isField(u.X) {
+				listed = true
+			}
+		}
+		if !listed {
+			continue
+		}
+		if as, isAs := rs.Body.List[0].(*ast.AssignStmt); isAs && len(as.Lhs) == 1 && len(as.Rhs) == 1 {
+			if star, isStar := ast.Unparen(as.Lhs[0]).(*ast.StarExpr); isStar && pat.Same(info, star.X, rs.Value) {
+				if _, isConst := core.StringConst(info, as.Rhs[0]); isConst {
+					return true, nil, false
+				}
+			}
+		}
+	}
+	maskNode := func(n ast.Node) bool {
+		if as, ok := n.(*ast.AssignStmt); ok && len(as.Lhs) == len(as.Rhs) {
+			for i, l := range as.Lhs {
+				if isField(l) {
+					if _, isConst := core.StringConst(info, as.Rhs[i]); isConst {
+						return true
+					}
+				}
+			}
+		}
+		for _, call := range cfgq.ExecCalls(n) {
+			f := core.CalleeFunc(info, call)
+			if f == nil {
+				continue
+			}
+			for i, arg := range call.Args {
+				x := ast.Unparen(arg)
+				if u, isAddr := x.(*ast.UnaryExpr); isAddr && u.Op == token.AND {
+					x = ast.Unparen(u.X)
+				} else if _, isPtr := info.TypeOf(x).(*types.Pointer); !isPtr {
+					continue
+				}
+				if !isBase(x) {
+					continue
+				}
+				h := c.FnOf(f)
+				if h == nil || h.Decl.Body == nil || depth >= 2 || f.Pkg() != fn.Obj.Pkg() {
+					esc = true
+					continue
+				}
+				var pobj types.Object
+				k := 0
+				for _, fl := range h.Decl.Type.Params.List {
+					for _, nm := range fl.Names {
+						if k == i {
+							pobj = h.Pkg.TypesInfo.Defs[nm]
+						}
+						k++
+					}
+				}
+				if pobj == nil {
+					esc = true
+					continue
+				}
+				hi := h.Pkg.TypesInfo
+				okH, _, escH := a.masks(h, func(e ast.Expr) bool {
+					id, ok := ast.Unparen(e).(*ast.Ident)
+					return ok && hi.Uses[id] == pobj
+				}, name, depth+1)
+				if okH {
+					return true
+				}
+				if !okH {
+					esc = esc || escH || true
+				}
+			}
+		}
+		return false
+	}
+	empty := func(b *cfg.Block, s int) bool {
+		return g.Establishes(b, s, func(ft cfgq.Fact) bool {
+			be, ok := ast.Unparen(ft.Expr).(*ast.BinaryExpr)
+			if !ok {
+				return false
+			}
+			for _, p := range [][2]ast.Expr{{be.X, be.Y}, {be.Y, be.X}} {
+				if !isField(p[0]) {
+					continue
+				}
+				if sv, ok := core.StringConst(info, p[1]); ok && sv == "" {
+					return be.Op == token.EQL && ft.Val || be.Op == token.NEQ && !ft.Val
+				}
+			}
+			return false
+		})
+	}
+	w := g.Path(cfgq.Query{From: g.Entry(), Avoid: maskNode, AvoidEdge: empty, TargetExit: cfgq.NormalExit})
+	return w == nil, w, esc
 }
